@@ -254,6 +254,7 @@ func (m *urlModule) createURLSearchParamsPrototype() *goja.Object {
 		}
 
 		name := call.Argument(0).String()
+		value := call.Argument(1).String()
 		found := false
 		j := 0
 		for i, sp := range u.searchParams {
@@ -262,7 +263,7 @@ func (m *urlModule) createURLSearchParamsPrototype() *goja.Object {
 					continue // Remove all values
 				}
 
-				u.searchParams[i].value = call.Argument(1).String()
+				u.searchParams[i].value = value
 				found = true
 			}
 			if i != j {
@@ -274,7 +275,7 @@ func (m *urlModule) createURLSearchParamsPrototype() *goja.Object {
 		if !found {
 			u.searchParams = append(u.searchParams, searchParam{
 				name:  name,
-				value: call.Argument(1).String(),
+				value: value,
 			})
 		} else {
 			u.searchParams = u.searchParams[:j]
